@@ -988,12 +988,12 @@ pub async fn run_backpressure_case(tls: bool, small_sndbuf: bool, m: usize, patt
     problems
 }
 
-pub fn backpressure_stream_phase(thorough: bool) -> Stats {
+pub fn backpressure_stream_phase(thorough: bool, patterns: usize) -> Stats {
     let m = if thorough { 12000 } else { 2500 };
     let mut cases: Vec<(bool, bool, usize)> = vec![];
     for tls in [false, true] {
         for small in [true, false] {
-            for pattern in 0..4 {
+            for pattern in 0..patterns {
                 cases.push((tls, small, pattern));
             }
         }
